@@ -97,7 +97,8 @@ class DeferredXMLRPCResponse:
 
     def getresponse(self, body):
         self.request['Content-Type'] = 'text/xml'
-        self.request['Content-Length'] = len(body)
+        # the body is text here and is encoded when pushed: count its bytes
+        self.request['Content-Length'] = len(as_bytes(body))
         self.request.push(body)
         connection = get_header(self.CONNECTION, self.request.header)
 
